@@ -68,6 +68,7 @@ func genC11(seed uint64, r *rng.Rand) *Plan {
 	p.Corrupt = []float64{0.05, 0.15, 0.4}[g.R.Intn(3)]
 	p.CorruptMax = g.R.Range(1, 8)
 	p.CorruptMeta = []float64{0, 0.2, 0.5}[g.R.Intn(3)]
+	p.CorruptSticky = g.R.Chance(0.3)
 	return p
 }
 
@@ -104,12 +105,24 @@ func init() {
 			}
 			metaLeft := w.Plan.CorruptMax
 			if w.Plan.CorruptMeta > 0 {
+				// sticky: once hbase:meta has answered with an older incarnation of a
+				// region it keeps doing so until the corruption stops (a stale meta
+				// row is a persistent condition, not a one-off)
+				sticky := map[string]bool{}
 				e.C.MetaCorruptFn = func(reg *hb.Region, cells []hb.Cell) []hb.Cell {
+					if sticky[reg.Name] {
+						out, _ := hb.CorruptMetaKind(r, cells, "region-older")
+						e.Stats.FaultKinds["meta/region-older-again"]++
+						return out
+					}
 					if metaLeft <= 0 || !r.Chance(w.Plan.CorruptMeta) {
 						return cells
 					}
 					metaLeft--
 					out, kind := hb.CorruptMeta(r, cells)
+					if kind == "region-older" && w.Plan.CorruptSticky {
+						sticky[reg.Name] = true
+					}
 					e.Stats.FaultKinds["meta/"+kind]++
 					e.Stats.FaultsFired++
 					return out
@@ -122,7 +135,9 @@ func init() {
 			if w.Env.StopErr == nil {
 				vs = append(vs, w.AllReturned("C11", "caller-stuck-after-corruption")...)
 			}
-			if w.Env.Step >= w.Env.Knobs.MaxSteps-1 {
+			if n := w.Env.MaxInstantSteps; n > 40000 && !w.Env.FreeMode {
+				vs = append(vs, w.viol("C11", "spin", "%d consecutive scheduler steps were taken without the simulated clock advancing: the client spins on malformed data (no wait between attempts)", n))
+			} else if w.Env.Step >= w.Env.Knobs.MaxSteps-1 {
 				vs = append(vs, w.viol("C11", "spin", "the run consumed its step budget (%d steps, %v simulated): the client spins on malformed data", w.Env.Step, w.Env.Now()))
 			}
 			return vs
